@@ -423,6 +423,47 @@ class Flow:
         return True, '%s := newest value each step; %s := evicted value on eviction (first value initially)' % (newest, oldest)
 
     # ------------------------------------------------------------------ extrema
+    def scan_body(self, val):
+        """(direction 'max'|'min' or None, reason or None): the rescan must select, element by element, the larger (smaller)
+        of the running extremum and the element, and start from an element of the sequence or the identity of max (min)."""
+        from .terms import relation
+        if val[0] == 'reduce':
+            if val[1] in ('max', 'min'):
+                return val[1], None
+            return None, 'the rescan uses a comparator that is not the natural order of the values (%s)' % val[1]
+        L, key, init, nxt = val[1], val[2], val[3], val[4]
+        mu = ('mu', L, key)
+        direction = None
+        item = None
+        if nxt[0] == 'op' and nxt[1] in ('max', 'min') and len(nxt[2]) == 2 and mu in nxt[2]:
+            item = nxt[2][1] if nxt[2][0] == mu else nxt[2][0]
+            direction = nxt[1]
+        elif nxt[0] == 'phi' and mu in (nxt[2], nxt[3]) and nxt[2] != nxt[3]:
+            item = nxt[3] if nxt[2] == mu else nxt[2]
+            takes_item_when_true = nxt[2] == item
+            r = relation(nxt[1], item, mu)
+            if r is None:
+                return None, 'the rescan step is not a comparison between the running extremum and the element: %s' % tstr(nxt[1])[:60]
+            if not takes_item_when_true:
+                r = {'<', '=', '>'} - r
+            if r <= {'>', '='} and '>' in r:
+                direction = 'max'
+            elif r <= {'<', '='} and '<' in r:
+                direction = 'min'
+            else:
+                return None, 'the rescan step keeps neither the larger nor the smaller of the two values'
+        else:
+            return None, 'the rescan step is not a selection between the running extremum and the element: %s' % tstr(nxt)[:80]
+        if not (item[0] == 'get' and any(x[0] == 'idx' and x[1] == L for x in subterms(item[2]))):
+            return None, 'the rescan compares with %s, not with the elements of the window' % tstr(item)[:50]
+        seq = item[1]
+        ok_init = (init[0] in ('front', 'back') and init[1] == seq) or (init[0] == 'get' and init[1] == seq) or \
+            (init[0] == 'sentinel' and ((direction == 'max' and init[1] in ('min_value', 'neg_infinity')) or
+                                        (direction == 'min' and init[1] in ('max_value', 'infinity'))))
+        if not ok_init:
+            return direction, 'the rescan is seeded with %s, which is neither an element of the window nor the identity of %s' % (tstr(init)[:40], direction)
+        return direction, None
+
     def scan_coverage(self, val, seq):
         """None if the rescan `val` provably visits every element of `seq` (seed element included), else a reason."""
         if val[0] == 'reduce':
@@ -438,11 +479,21 @@ class Flow:
             return None
         it = info['iter']
         if it[0] != 'range':
-            for y in subterms(it):
-                if y[0] in ('skip', 'take', 'step_by', 'skip_while', 'take_while', 'filter'):
-                    return 'the rescan iterates over an adapted sequence (%s): not every element is visited' % y[0]
-            return None
-        lo, hi, incl = it[1], it[2], it[3]
+            # iterator over the sequence, possibly skipping a prefix that is the seed
+            cur = it
+            skip = lit(0, 'i')
+            while cur[0] in ('copied', 'skip', 'enumerate'):
+                if cur[0] == 'skip':
+                    skip = cur[2] if skip == lit(0, 'i') else op('iadd', skip, cur[2])
+                cur = cur[1]
+            if cur[0] != 'iter' or cur[1] != seq:
+                for y in subterms(it):
+                    if y[0] in ('take', 'step_by', 'skip_while', 'take_while', 'filter', 'rev', 'zip'):
+                        return 'the rescan iterates over an adapted sequence (%s): not every element is visited' % y[0]
+                return None
+            lo, hi, incl = skip, ('len', seq), False
+        else:
+            lo, hi, incl = it[1], it[2], it[3]
         idxs = {x[2] for x in subterms(val[4]) if x[0] == 'get' and x[1] == seq}
         i = ('idx', L)
         n = ('len', seq)
@@ -514,6 +565,12 @@ class Flow:
                     for y in subterms(seq):
                         if y[0] == 'in' and y[1] in self.queues:
                             scan_queues.add(y[1])
+                # W6: the scan step selects the larger/smaller value and starts from an element or the identity
+                direction_, why_ = self.scan_body(val)
+                if why_ is not None:
+                    return kind or direction_ or 'scan', False, why_
+                if kind is None:
+                    kind = direction_
                 # W5: the scan visits every element of the sequence
                 cov = self.scan_coverage(val, seq)
                 if cov is not None:
